@@ -38,6 +38,12 @@ func InitializeRunningEventFilter(database db.KeyValueStore) (*core.RunningEvent
 		return nil, fmt.Errorf("getting stored running event filter: %w", err)
 	}
 	if err == nil {
+		// The snapshot describes the chain as of the graceful shutdown that wrote it and is
+		// consumed here: as soon as this process stores or reverts a block it is stale, and a
+		// restart that was not preceded by a new snapshot must rebuild from the headers.
+		if err := core.DeleteRunningEventFilter(database); err != nil {
+			return nil, fmt.Errorf("deleting consumed running event filter snapshot: %w", err)
+		}
 		next, err := stored.NextBlock()
 		if err != nil {
 			return nil, fmt.Errorf("reading stored next block: %w", err)
